@@ -350,6 +350,16 @@ class Exec(ExprMixin, HeapMixin, StmtMixin, CallMixin, BuiltinMixin):
             data = opt_get(data)  # readers are only meaningful under a 'x is not None' guard of the contract
         if isinstance(data.t, TList):
             raise Unsupported("reader on list")
+        B = prelude().Bytes
+        dz = data.z
+        if z3.is_app(dz) and dz.decl().eq(B.Slice):
+            # reader on a slice b[lo:hi] (typically a callee's parameter bound to a slice of the caller's buffer): read
+            # through to b itself when the read lies inside the slice -- same value by the Slice axioms, but the index
+            # terms are then offsets into b, which is what the caller's invariants talk about
+            src, lo, hi = dz.arg(0), dz.arg(1), dz.arg(2)
+            inside = z3.And(0 <= lo, lo <= hi, hi <= B.Len(src), 0 <= off, off + size <= hi - lo)
+            return V(INT, z3.If(inside, self.read_int(src, z3.simplify(lo + off), size, signed, little),
+                                self.read_int(dz, off, size, signed, little)))
         return V(INT, self.read_int(data.z, off, size, signed, little))
 
     def spec_u8(self, e, st): return self._reader(e, st, 1)
